@@ -113,7 +113,26 @@ func c19Scenarios(tier string) []scenario {
 	return scs
 }
 
+func c19RaceScenarios(tier string) []scenario {
+	var out []scenario
+	for _, sc := range c19Scenarios(tier) {
+		if !(strings.HasPrefix(sc.Name, "pool-none/") || strings.HasPrefix(sc.Name, "pool-invalid/")) {
+			continue
+		}
+		sc.Cfg.P = 1
+		if tier == "thorough" {
+			sc.Cfg.P = 2
+		}
+		out = append(out, raceWrap("C19", sc))
+	}
+	return out
+}
+
 func init() {
+	fw.Register(fw.Part{Prop: "C19R", Name: "s.race",
+		Units:  func(tier string) []fw.Unit { return scenarioUnits(c19RaceScenarios(tier)) },
+		Replay: replayFn(c19RaceScenarios),
+	})
 	fw.Register(fw.Part{Prop: "C19", Name: "s.pool",
 		Units:  func(tier string) []fw.Unit { return scenarioUnits(c19Scenarios(tier)) },
 		Replay: replayFn(c19Scenarios),
